@@ -223,7 +223,8 @@ ScopeWith(pats, p, outer) == ScopeWithSlot(pats, p, outer, p)
 \* pattern shadow outer ones there as well (and are useless, the pattern did not match), so the else block may
 \* only use outer captures that are not shadowed.
 ScopeElse(pats, p, outer) ==
-  LET keep == SelectSeq(outer, LAMBDA c : Abs(c.g) > Len(pats[p].caps) \/ c.name # "")
+  LET mynames == {pats[p].caps[g].name : g \in 1..Len(pats[p].caps)} \ {""}
+      keep == SelectSeq(outer, LAMBDA c : (Abs(c.g) > Len(pats[p].caps) \/ c.name # "") /\ c.name \notin mynames)
   IN [i \in 1..Len(keep) |-> IF Abs(keep[i].g) <= Len(pats[p].caps) THEN [keep[i] EXCEPT !.g = -Abs(keep[i].g)] ELSE keep[i]]
 
 \* what a decorated block sees of the decorator's scope at `next`: checker.go flattens the scope with
